@@ -147,11 +147,11 @@ def run(ctx):
             continue
         piece = expr(sp, rv["ops"][0])
         gl = guard_strs(sp, d[0])
-        extra = [g for g in gl if not re.match(r"^(V0:branch\(self\.haystack\)|!?V1:split_once\()", g)]
+        extra = [g for g in gl if not re.match(r"^(V0:branch\(self\.haystack\)|!?V[01]:split_once\()", g)]
         if piece.startswith(SO + "#Some.0.0"):
             ok_ = ("V1:" + SO) in gl and not extra
         elif piece == H_:
-            ok_ = ("!V1:" + SO) in gl and not extra
+            ok_ = (("!V1:" + SO) in gl or ("V0:" + SO) in gl) and not extra
         else:
             ok_ = False
         res.check(ok_, "R14.2", "split-next-piece|" + ("first-half" if "Some.0.0" in piece else "rest" if piece == H_ else "other"), "%s bb%d" % (sp.where(), d[0]),
